@@ -36,6 +36,17 @@ Record digits_of (n : N) (l : str) : Prop := {
   d_head : match l with [] => False | c :: t => if n =? 0 then t = [] /\ c = 48 else c <> 48 end;
 }.
 
+Lemma digits_fuel_S f n acc :
+  digits_fuel (S f) n acc =
+  if n / 10 =? 0 then (c_zero + n mod 10) :: acc else digits_fuel f (n / 10) ((c_zero + n mod 10) :: acc).
+Proof. reflexivity. Qed.
+
+Lemma digit_mod n : is_digit (c_zero + n mod 10) = true /\ c_zero + n mod 10 - 48 = n mod 10 /\ (n mod 10 <> 0 -> c_zero + n mod 10 <> 48).
+Proof.
+  pose proof (N.mod_lt n 10 ltac:(discriminate)) as Hm. set (m := n mod 10) in *. clearbody m.
+  unfold c_zero. repeat split; [apply is_digit_spec; lia | lia | lia].
+Qed.
+
 Lemma digits_fuel_spec : forall f n acc, n < 2 ^ N.of_nat f ->
   exists l, digits_fuel (S f) n acc = l ++ acc /\ digits_of n l.
 Proof.
@@ -43,28 +54,29 @@ Proof.
   - assert (n = 0) as -> by (cbn in Hn; lia). exists [48]. split; [reflexivity|].
     constructor; [intro a | reflexivity | cbn [d_head]; change (0 =? 0) with true; cbv iota; auto].
     cbn [digits_val length]. change (is_digit 48) with true. cbv iota. change (N.of_nat 1) with 1. rewrite N.pow_1_r. lia.
-  - cbn [digits_fuel]. pose proof (N.div_mod' n 10) as Hdm. pose proof (N.mod_lt n 10 ltac:(lia)) as Hm.
+  - rewrite digits_fuel_S. pose proof (N.div_mod' n 10) as Hdm. pose proof (N.mod_lt n 10 ltac:(discriminate)) as Hm.
+    destruct (digit_mod n) as [Hdg [Hsub Hnz]].
     destruct (N.eqb_spec (n / 10) 0) as [E|E].
     + exists [c_zero + n mod 10]. split; [reflexivity|].
-      assert (n = n mod 10) as Hnn by lia.
+      assert (n = n mod 10) as Hnn by (rewrite E in Hdm; rewrite N.mul_0_r, N.add_0_l in Hdm; exact Hdm).
       constructor.
-      * intro a. cbn [digits_val length]. unfold c_zero.
-        assert (is_digit (48 + n mod 10) = true) as -> by (apply is_digit_spec; lia).
-        change (N.of_nat 1) with 1. rewrite N.pow_1_r. clear Hn IH. lia.
-      * cbn [forallb]. rewrite andb_true_r. apply is_digit_spec. unfold c_zero. lia.
-      * destruct (N.eqb_spec n 0) as [->|Hz]; [split; reflexivity|]. unfold c_zero. lia.
+      * intro a. cbn [digits_val length]. rewrite Hdg, Hsub, <- Hnn.
+        change (N.of_nat 1) with 1. rewrite N.pow_1_r. reflexivity.
+      * cbn [forallb]. rewrite Hdg. reflexivity.
+      * destruct (N.eqb_spec n 0) as [->|Hz]; [split; reflexivity|]. apply Hnz. rewrite <- Hnn. exact Hz.
     + assert (n / 10 < 2 ^ N.of_nat f) as Hlt.
-      { rewrite Nat2N.inj_succ, N.pow_succ_r' in Hn. clear IH. set (q := n / 10) in *. set (m := n mod 10) in *. set (X := 2 ^ N.of_nat f) in *. clearbody q m X. lia. }
+      { rewrite Nat2N.inj_succ, N.pow_succ_r' in Hn. clear IH Hdg Hsub Hnz. set (q := n / 10) in *. set (m := n mod 10) in *.
+        set (X := 2 ^ N.of_nat f) in *. clearbody q m X. lia. }
       destruct (IH (n / 10) ((c_zero + n mod 10) :: acc) Hlt) as [l' [El' [Hv Hd Hh]]].
       exists (l' ++ [c_zero + n mod 10]). split; [rewrite El', <- app_assoc; reflexivity|].
-      assert (is_digit (c_zero + n mod 10) = true) as Hdg by (apply is_digit_spec; unfold c_zero; lia).
       constructor.
-      * intro a. rewrite digits_val_app, Hv. cbn [digits_val]. rewrite Hdg. rewrite app_length. cbn [length].
-        rewrite Nat.add_1_r, Nat2N.inj_succ, N.pow_succ_r'. unfold c_zero. lia.
+      * intro a. rewrite digits_val_app, Hv. cbn [digits_val]. rewrite Hdg, Hsub. rewrite app_length. cbn [length].
+        rewrite Nat.add_1_r, Nat2N.inj_succ, N.pow_succ_r'.
+        set (P := 10 ^ N.of_nat (length l')). rewrite Hdm at 3. set (q := n / 10). set (m := n mod 10). ring.
       * rewrite forallb_app, Hd. cbn [forallb]. rewrite Hdg. reflexivity.
       * destruct l' as [|c t]; [contradiction|]. cbn [app].
         destruct (N.eqb_spec (n / 10) 0) as [|_]; [contradiction|].
-        destruct (N.eqb_spec n 0) as [->|_]; [cbn in E; contradiction | exact Hh].
+        destruct (N.eqb_spec n 0) as [Hz|_]; [|exact Hh]. rewrite Hz in E. cbn in E. contradiction.
 Qed.
 
 Lemma show_N_spec n : digits_of n (show_N n).
@@ -78,7 +90,7 @@ Lemma take_while_all p l : forallb p l = true -> take_while p l = (l, []).
 Proof. induction l as [|c t IH]; cbn [forallb take_while]; [reflexivity|]. intro H. apply andb_true_iff in H as [-> Ht]. rewrite (IH Ht). reflexivity. Qed.
 
 Lemma digit_or_us l : forallb is_digit l = true -> forallb is_digit_or_us l = true.
-Proof. induction l as [|c t IH]; cbn [forallb]; [reflexivity|]. intro H. apply andb_true_iff in H as [Hc Ht]. unfold is_digit_or_us. rewrite Hc, (IH Ht). reflexivity. Qed.
+Proof. induction l as [|c t IH]; cbn [forallb]; [reflexivity|]. intro H. apply andb_true_iff in H as [Hc Ht]. rewrite (IH Ht). unfold is_digit_or_us. rewrite Hc. reflexivity. Qed.
 
 Lemma lex_int_part_digits n : lex_int_part (show_N n) = Some (show_N n, []).
 Proof.
@@ -95,4 +107,680 @@ Proof.
   intros n Hn. unfold lex_number. rewrite lex_int_part_digits. cbn [lex_frac lex_exp].
   pose proof (d_val _ _ (show_N_spec n) 0) as Hv. rewrite N.mul_0_l, N.add_0_l in Hv. rewrite Hv.
   apply N.leb_le in Hn. rewrite Hn. reflexivity.
+Qed.
+
+(* ------------------------------------------------------------------ identifiers *)
+Lemma take_while_stop p l rest :
+  forallb p l = true -> match rest with [] => True | c :: _ => p c = false end -> take_while p (l ++ rest) = (l, rest).
+Proof.
+  intros Hl Hr. induction l as [|c t IH]; cbn [app forallb] in *.
+  - destruct rest as [|c r]; [reflexivity|]. cbn [take_while]. rewrite Hr. reflexivity.
+  - apply andb_true_iff in Hl as [Hc Ht]. cbn [take_while]. rewrite Hc, (IH Ht). reflexivity.
+Qed.
+
+(* strip_prefix w (s ++ rest): either w lies inside s, or s is a proper prefix of w *)
+Lemma strip_prefix_app w s rest r : strip_prefix w (s ++ rest) = Some r ->
+  (exists s2, s = w ++ s2 /\ r = s2 ++ rest) \/ (exists w2, w = s ++ w2 /\ w2 <> [] /\ rest = w2 ++ r).
+Proof.
+  revert s; induction w as [|x w IH]; intros s H.
+  - left. exists s. cbn in H. injection H as <-. split; reflexivity.
+  - destruct s as [|y s].
+    + right. exists (x :: w). cbn [app] in *. split; [reflexivity|]. split; [discriminate|].
+      apply strip_prefix_spec in H. exact H.
+    + cbn [app strip_prefix] in H. destruct (N.eqb_spec x y) as [->|]; [|discriminate].
+      destruct (IH s H) as [[s2 [-> ->]]|[w2 [-> [Hw ->]]]].
+      * left. exists s2. split; reflexivity.
+      * right. exists w2. repeat split; auto.
+Qed.
+
+Definition ranges_sub (rs allowed : list (N * N)) : bool :=
+  forallb (fun r => existsb (fun a => (fst a <=? fst r) && (snd r <=? snd a)) allowed) rs.
+Lemma ranges_sub_in rs allowed c : ranges_sub rs allowed = true -> in_ranges rs c = true -> in_ranges allowed c = true.
+Proof.
+  unfold ranges_sub, in_ranges. intros Hs Hc. apply existsb_exists in Hc as [r [Hr Hin]].
+  rewrite forallb_forall in Hs. specialize (Hs r Hr). apply existsb_exists in Hs as [a [Ha Hle]].
+  apply existsb_exists. exists a. split; [exact Ha|]. unfold in_range in *.
+  apply andb_true_iff in Hin as [H1 H2]. apply andb_true_iff in Hle as [H3 H4].
+  apply N.leb_le in H1, H2, H3, H4. apply andb_true_iff; split; apply N.leb_le; lia.
+Qed.
+
+Definition letters : list (N * N) := [(65, 90); (97, 122)].
+Definition start_ok : list (N * N) := [(36, 36); (65, 90); (95, 95); (97, 122)].
+Definition rest_ok : list (N * N) := [(36, 36); (48, 57); (65, 90); (95, 95); (97, 122)].
+
+(* what the proofs need from the generated tables (decidable; checked by vm_compute in Props) *)
+Definition idtab_ok (T : idtab) : bool :=
+  ranges_sub (it_fmt_start T) start_ok && ranges_sub (it_fmt_rest T) rest_ok &&
+  ranges_sub (it_disp_start T) start_ok && ranges_sub (it_disp_rest T) rest_ok &&
+  forallb (fun w => match w with [] => false | _ => forallb (fun c => in_range c 97 122) w end) (it_lex_keywords T).
+
+Definition lit_words : list str := [w_true; w_false; w_null].
+Definition is_word (T : idtab) (s : str) : bool := existsb (leqb s) (it_lex_keywords T ++ lit_words).
+
+(* the known class: printed bare although the text does not lex back as that identifier *)
+Definition write_known (T : idtab) (s : str) : bool :=
+  valid_prql_ident T s && negb (existsb (leqb s) (it_fmt_keywords T)) && (is_star s || contains 36 s || is_word T s).
+Definition display_bare (T : idtab) (s : str) : bool :=
+  match s with [] => false | c :: t => in_ranges (it_disp_start T) c && forallb (in_ranges (it_disp_rest T)) t end.
+Definition display_known (T : idtab) (s : str) : bool := display_bare T s && (contains 36 s || is_word T s).
+
+Definition alnum_ascii : list (N * N) := [(48, 57); (65, 90); (97, 122)].
+
+Section Idents.
+  (* Rust's char::is_alphabetic / is_alphanumeric: only their ASCII restriction and one inclusion are used *)
+  Variable is_alpha is_alnum : N -> bool.
+  Hypothesis ascii_alpha : forall c, c < 128 -> is_alpha c = in_ranges letters c.
+  Hypothesis ascii_alnum : forall c, c < 128 -> is_alnum c = in_ranges alnum_ascii c.
+  Hypothesis alpha_alnum : forall c, is_alpha c = true -> is_alnum c = true.
+  Variable T : idtab.
+  Hypothesis TOK : idtab_ok T = true.
+
+  Notation lexw := (lex_word is_alpha is_alnum T).
+  Definition word_char (c : N) : bool := is_alnum c || (c =? c_underscore).
+  (* what follows the identifier does not continue it *)
+  Definition delim (rest : str) : Prop := match rest with [] => True | c :: _ => word_char c = false end.
+
+  Lemma lower_word_char c : in_range c 97 122 = true -> word_char c = true.
+  Proof.
+    intro H. unfold word_char. pose proof H as H'. unfold in_range in H'. apply andb_true_iff in H' as [_ H2]. apply N.leb_le in H2.
+    rewrite ascii_alnum by lia. unfold in_ranges, alnum_ascii. cbn [existsb fst snd]. rewrite H. rewrite !orb_true_r. reflexivity.
+  Qed.
+
+  Lemma kw_chars w : In w (it_lex_keywords T) -> w <> [] /\ forallb (fun c => in_range c 97 122) w = true.
+  Proof.
+    intro Hin. unfold idtab_ok in TOK. apply andb_true_iff in TOK as [_ H]. rewrite forallb_forall in H.
+    specialize (H w Hin). destruct w; [discriminate|]. split; [discriminate | exact H].
+  Qed.
+  Lemma lit_chars w : In w lit_words -> w <> [] /\ forallb (fun c => in_range c 97 122) w = true.
+  Proof. intros [<-|[<-|[<-|[]]]]; split; try discriminate; reflexivity. Qed.
+
+  Ltac not_word_char c k Hc :=
+    destruct (N.eqb_spec c k) as [->|_];
+    [ unfold word_char in Hc; rewrite ascii_alnum in Hc by (vm_compute; reflexivity); vm_compute in Hc; discriminate Hc | ].
+
+  Lemma end_expr_word c t : word_char c = true -> end_expr (c :: t) = false.
+  Proof.
+    intro Hc. cbn [end_expr]. unfold c_dot.
+    not_word_char c 44 Hc. not_word_char c 41 Hc. not_word_char c 93 Hc. not_word_char c 125 Hc. not_word_char c 9 Hc.
+    not_word_char c 32 Hc. not_word_char c 62 Hc. not_word_char c 10 Hc. not_word_char c 13 Hc. not_word_char c 46 Hc.
+    reflexivity.
+  Qed.
+
+  (* a word (keyword / true / false / null) that is not the identifier itself does not match at s ++ rest *)
+  Lemma try_word_none w s rest : forallb (fun c => in_range c 97 122) w = true ->
+    forallb word_char s = true -> delim rest -> w <> s -> try_word w (s ++ rest) = None.
+  Proof.
+    intros Hw Hs Hd Hws. unfold try_word. destruct (strip_prefix w (s ++ rest)) as [r|] eqn:E; [|reflexivity].
+    destruct (strip_prefix_app _ _ _ _ E) as [[s2 [-> ->]]|[w2 [-> [Hw2 ->]]]].
+    - destruct s2 as [|c s2]; [rewrite app_nil_r in Hws; contradiction|].
+      rewrite forallb_app in Hs. apply andb_true_iff in Hs as [_ Hs]. cbn [forallb] in Hs. apply andb_true_iff in Hs as [Hc _].
+      cbn [app]. rewrite (end_expr_word c _ Hc). reflexivity.
+    - exfalso. destruct w2 as [|c w2]; [contradiction|]. cbn [app] in Hd. unfold delim in Hd.
+      rewrite forallb_app in Hw. apply andb_true_iff in Hw as [_ Hw]. cbn [forallb] in Hw. apply andb_true_iff in Hw as [Hc _].
+      rewrite (lower_word_char c Hc) in Hd. discriminate.
+  Qed.
+
+  Lemma first_prefix_none ws s rest : (forall w, In w ws -> forallb (fun c => in_range c 97 122) w = true /\ w <> s) ->
+    forallb word_char s = true -> delim rest -> first_prefix ws (s ++ rest) = None.
+  Proof.
+    intros Hws Hs Hd. induction ws as [|w t IH]; [reflexivity|]. cbn [first_prefix].
+    destruct (Hws w (or_introl eq_refl)) as [Hw Hne].
+    pose proof (try_word_none w s rest Hw Hs Hd Hne) as Hn. unfold try_word in Hn.
+    destruct (strip_prefix w (s ++ rest)) as [r|]; [destruct (end_expr r); [discriminate|] |]; apply IH; intros w' Hin; apply Hws; right; exact Hin.
+  Qed.
+
+  (* bare text made of word characters, starting with a letter or `_`, that is not a keyword or literal word *)
+  Lemma lex_bare s rest : forallb word_char s = true ->
+    match s with c :: _ => is_alpha c || (c =? c_underscore) = true | [] => False end ->
+    is_word T s = false -> delim rest -> lexw (s ++ rest) = Some (WIdent s, rest).
+  Proof.
+    intros Hs Hh Hw Hd. unfold is_word in Hw.
+    assert (Hnot : forall w, In w (it_lex_keywords T ++ lit_words) -> w <> s).
+    { intros w Hin ->. assert (existsb (leqb s) (it_lex_keywords T ++ lit_words) = true) as X; [|congruence].
+      apply existsb_exists. exists s. split; [exact Hin | apply leqb_refl]. }
+    unfold lex_word.
+    assert (I1 : In w_true (it_lex_keywords T ++ lit_words)) by (apply in_or_app; right; left; reflexivity).
+    assert (I2 : In w_false (it_lex_keywords T ++ lit_words)) by (apply in_or_app; right; right; left; reflexivity).
+    assert (I3 : In w_null (it_lex_keywords T ++ lit_words)) by (apply in_or_app; right; right; right; left; reflexivity).
+    rewrite (try_word_none w_true s rest eq_refl Hs Hd (Hnot _ I1)).
+    rewrite (try_word_none w_false s rest eq_refl Hs Hd (Hnot _ I2)).
+    rewrite (try_word_none w_null s rest eq_refl Hs Hd (Hnot _ I3)).
+    rewrite first_prefix_none; [ | | exact Hs | exact Hd].
+    2:{ intros w Hin. split; [apply kw_chars; exact Hin | apply Hnot; apply in_or_app; left; exact Hin]. }
+    destruct s as [|c t]; [contradiction|]. cbn [app lex_plain]. rewrite Hh.
+    cbn [forallb] in Hs. apply andb_true_iff in Hs as [_ Ht].
+    fold word_char. change (fun x => is_alnum x || (x =? c_underscore)) with word_char.
+    rewrite (take_while_stop word_char t rest Ht); [reflexivity|]. destruct rest; [exact I | exact Hd].
+  Qed.
+
+  (* text in backticks *)
+  Lemma lex_bt s rest : contains c_backtick s = false -> lexw (bt s ++ rest) = Some (WIdent s, rest).
+  Proof.
+    intro Hs. unfold bt. cbn [app]. unfold lex_word.
+    assert (Hw : forall w, w <> [] -> forallb (fun c => in_range c 97 122) w = true -> strip_prefix w (c_backtick :: (s ++ [c_backtick]) ++ rest) = None).
+    { intros w Hne Hl. destruct w as [|x w]; [contradiction|]. cbn [strip_prefix forallb] in *. apply andb_true_iff in Hl as [Hx _].
+      destruct (N.eqb_spec x c_backtick) as [->|]; [discriminate Hx | reflexivity]. }
+    unfold try_word. rewrite (Hw w_true ltac:(discriminate) eq_refl), (Hw w_false ltac:(discriminate) eq_refl), (Hw w_null ltac:(discriminate) eq_refl).
+    assert (first_prefix (it_lex_keywords T) (c_backtick :: (s ++ [c_backtick]) ++ rest) = None) as ->.
+    { assert (forall ws, (forall w, In w ws -> In w (it_lex_keywords T)) -> first_prefix ws (c_backtick :: (s ++ [c_backtick]) ++ rest) = None) as X.
+      { induction ws as [|w t IH]; intro Hin; [reflexivity|]. cbn [first_prefix].
+        destruct (kw_chars w (Hin w (or_introl eq_refl))) as [Hne Hl]. rewrite (Hw w Hne Hl). apply IH. intros w' Hw'. apply Hin. right; exact Hw'. }
+      apply X. auto. }
+    cbn [lex_plain]. rewrite ascii_alpha by (vm_compute; reflexivity). change (in_ranges letters c_backtick) with false.
+    change (c_backtick =? c_underscore) with false. cbn [orb].
+    cbn [lex_backtick]. rewrite N.eqb_refl. rewrite <- app_assoc. cbn [app].
+    rewrite (take_while_stop (fun x => negb (x =? c_backtick)) s (c_backtick :: rest)).
+    - reflexivity.
+    - clear - Hs. induction s as [|c t IH]; [reflexivity|]. cbn [contains existsb forallb] in *. apply orb_false_iff in Hs as [Hc Ht].
+      rewrite N.eqb_sym, Hc. cbn [negb andb]. apply IH. exact Ht.
+    - rewrite N.eqb_refl. reflexivity.
+  Qed.
+
+  Lemma in_rest_ok c : in_ranges rest_ok c = true -> c <> 36 -> word_char c = true.
+  Proof.
+    unfold in_ranges, rest_ok, in_range. cbn [existsb fst snd]. intros H Hd. unfold word_char.
+    repeat (apply orb_true_iff in H as [H|H]); try discriminate H;
+      apply andb_true_iff in H as [H1 H2]; apply N.leb_le in H1, H2;
+      try (assert (c = 36) by lia; contradiction);
+      try (assert (c = 95) as -> by lia; rewrite orb_true_r; reflexivity);
+      (rewrite ascii_alnum by lia; unfold in_ranges, alnum_ascii, in_range; cbn [existsb fst snd];
+       apply N.leb_le in H1, H2; rewrite H1, H2; cbn [andb orb]; rewrite ?orb_true_r; reflexivity).
+  Qed.
+  Lemma in_start_ok c : in_ranges start_ok c = true -> c <> 36 -> is_alpha c || (c =? c_underscore) = true.
+  Proof.
+    unfold in_ranges, start_ok, in_range. cbn [existsb fst snd]. intros H Hd.
+    repeat (apply orb_true_iff in H as [H|H]); try discriminate H;
+      apply andb_true_iff in H as [H1 H2]; apply N.leb_le in H1, H2;
+      try (assert (c = 36) by lia; contradiction);
+      try (assert (c = 95) as -> by lia; rewrite orb_true_r; reflexivity);
+      (rewrite ascii_alpha by lia; unfold in_ranges, letters, in_range; cbn [existsb fst snd];
+       apply N.leb_le in H1, H2; rewrite H1, H2; cbn [andb orb]; rewrite ?orb_true_r; reflexivity).
+  Qed.
+
+  Lemma no_dollar_forall (p : N -> bool) t : contains 36 t = false -> forallb p t = true ->
+    (forall c, p c = true -> c <> 36 -> word_char c = true) -> forallb word_char t = true.
+  Proof.
+    intros Hd Hp Himp. induction t as [|c r IH]; [reflexivity|]. cbn [contains existsb forallb] in *.
+    apply orb_false_iff in Hd as [Hc Hr]. apply andb_true_iff in Hp as [Hpc Hpr].
+    rewrite (Himp c Hpc); [|intros ->; discriminate Hc]. apply IH; assumption.
+  Qed.
+
+  Lemma bare_lexes (start rest_r : list (N * N)) c t rest :
+    ranges_sub start start_ok = true -> ranges_sub rest_r rest_ok = true ->
+    in_ranges start c = true -> forallb (in_ranges rest_r) t = true ->
+    contains 36 (c :: t) = false -> is_word T (c :: t) = false -> delim rest ->
+    lexw ((c :: t) ++ rest) = Some (WIdent (c :: t), rest).
+  Proof.
+    intros S1 S2 Hc Ht Hd Hw Hdl. cbn [contains existsb] in Hd. apply orb_false_iff in Hd as [Hdc Hdt].
+    assert (c <> 36) as Hc36 by (intros ->; discriminate Hdc).
+    pose proof (in_start_ok c (ranges_sub_in _ _ _ S1 Hc) Hc36) as Hstart.
+    apply lex_bare; [ | exact Hstart | exact Hw | exact Hdl].
+    cbn [forallb]. apply andb_true_iff. split.
+    - unfold word_char. apply orb_true_iff in Hstart as [Ha|Hu]; [rewrite (alpha_alnum c Ha); reflexivity | rewrite Hu; apply orb_true_r].
+    - apply (no_dollar_forall (in_ranges rest_r)); [exact Hdt | exact Ht|]. intros x Hx. apply in_rest_ok. exact (ranges_sub_in _ _ _ S2 Hx).
+  Qed.
+
+  Theorem write_ident_lexes s rest : contains c_backtick s = false -> write_known T s = false -> delim rest ->
+    lexw (write_ident_part T s ++ rest) = Some (WIdent s, rest).
+  Proof.
+    intros Hb Hk Hd. unfold write_ident_part, write_known in *.
+    destruct (valid_prql_ident T s && negb (existsb (leqb s) (it_fmt_keywords T))) eqn:B; [|apply lex_bt; exact Hb].
+    cbn [andb] in Hk. apply orb_false_iff in Hk as [Hk Hw]. apply orb_false_iff in Hk as [Hstar Hdol].
+    apply andb_true_iff in B as [Hv _]. unfold valid_prql_ident in Hv. rewrite Hstar in Hv. cbn [orb] in Hv.
+    destruct s as [|c t]; [discriminate|]. apply andb_true_iff in Hv as [Hc Ht].
+    pose proof TOK as TK. unfold idtab_ok in TK. repeat (apply andb_true_iff in TK as [TK ?]).
+    apply (bare_lexes (it_fmt_start T) (it_fmt_rest T)); assumption.
+  Qed.
+
+  Theorem display_ident_lexes s rest : contains c_backtick s = false -> display_known T s = false -> delim rest ->
+    lexw (display_ident_part T s ++ rest) = Some (WIdent s, rest).
+  Proof.
+    intros Hb Hk Hd. unfold display_ident_part, display_known, display_bare in *.
+    destruct s as [|c t]; [apply lex_bt; exact Hb|].
+    destruct (in_ranges (it_disp_start T) c && forallb (in_ranges (it_disp_rest T)) t) eqn:B; [|apply lex_bt; exact Hb].
+    cbn [andb] in Hk. apply orb_false_iff in Hk as [Hdol Hw]. apply andb_true_iff in B as [Hc Ht].
+    pose proof TOK as TK. unfold idtab_ok in TK. repeat (apply andb_true_iff in TK as [TK ?]).
+    apply (bare_lexes (it_disp_start T) (it_disp_rest T)); assumption.
+  Qed.
+End Idents.
+
+(* ------------------------------------------------------------------ hexadecimal digits (for \u{...}) *)
+Lemma hex_digit_props d : d < 16 ->
+  is_hex (hex_digit d) = true /\ hex_val (hex_digit d) = d /\ (hex_digit d =? c_rbrace) = false.
+Proof.
+  intro Hd. unfold hex_digit, is_hex, hex_val, is_digit, in_range, c_rbrace, c_zero.
+  destruct (N.ltb_spec d 10) as [H|H].
+  - assert (48 <=? 48 + d = true) as -> by (apply N.leb_le; lia).
+    assert (48 + d <=? 57 = true) as -> by (apply N.leb_le; lia).
+    cbn [andb orb]. repeat split; [lia|]. apply N.eqb_neq. lia.
+  - assert (48 <=? 87 + d = true) as -> by (apply N.leb_le; lia).
+    assert (87 + d <=? 57 = false) as -> by (apply N.leb_gt; lia).
+    assert (97 <=? 87 + d = true) as -> by (apply N.leb_le; lia).
+    assert (87 + d <=? 102 = true) as -> by (apply N.leb_le; lia).
+    cbn [andb orb]. repeat split; [lia|]. apply N.eqb_neq. lia.
+Qed.
+
+Lemma hex_fuel_S f n acc :
+  hex_fuel (S f) n acc = if n / 16 =? 0 then hex_digit (n mod 16) :: acc else hex_fuel f (n / 16) (hex_digit (n mod 16) :: acc).
+Proof. reflexivity. Qed.
+
+(* scanning hex digits: what lex_u_digits computes on  digits ++ } :: rest *)
+Fixpoint hex_value (l : str) (a : N) : N := match l with [] => a | c :: t => hex_value t (a * 16 + hex_val c) end.
+Definition hexs (l : str) : Prop := Forall (fun c => is_hex c = true /\ (c =? c_rbrace) = false) l.
+
+Lemma hex_value_app l1 l2 a : hex_value (l1 ++ l2) a = hex_value l2 (hex_value l1 a).
+Proof. revert a; induction l1 as [|c t IH]; intro a; cbn [app hex_value]; auto. Qed.
+
+Lemma lex_u_digits_spec l : hexs l -> forall rest fuel acc n, (length l + n <= 6)%nat -> (length l < fuel)%nat ->
+  lex_u_digits fuel (l ++ c_rbrace :: rest) acc n = (hex_value l acc, rest).
+Proof.
+  induction 1 as [|c t [Hc1 Hc2] Ht IH]; intros rest fuel acc n Hn Hf.
+  - destruct fuel; [cbn in Hf; lia|]. cbn [app lex_u_digits]. rewrite N.eqb_refl. reflexivity.
+  - destruct fuel; [cbn in Hf; lia|]. cbn [app lex_u_digits length] in *. rewrite Hc2, Hc1.
+    destruct (Nat.ltb_spec n 6); [|lia]. cbn [andb]. apply IH; lia.
+Qed.
+
+Lemma hex_fuel_spec : forall f n acc, n < 2 ^ N.of_nat f ->
+  exists l, hex_fuel (S f) n acc = l ++ acc /\ hexs l /\ (forall a, hex_value l a = a * 16 ^ N.of_nat (length l) + n) /\
+            (forall k, n < 16 ^ N.of_nat (S k) -> (length l <= S k)%nat).
+Proof.
+  induction f as [|f IH]; intros n acc Hn.
+  - assert (n = 0) as -> by (cbn in Hn; lia). exists [hex_digit 0]. split; [reflexivity|].
+    destruct (hex_digit_props 0 ltac:(lia)) as [H1 [H2 H3]].
+    split; [repeat constructor; assumption|]. split.
+    + intro a. cbn [hex_value length]. rewrite H2. change (N.of_nat 1) with 1. rewrite N.pow_1_r. lia.
+    + intros k _. cbn [length]. lia.
+  - rewrite hex_fuel_S. pose proof (N.div_mod' n 16) as Hdm. pose proof (N.mod_lt n 16 ltac:(discriminate)) as Hm.
+    destruct (hex_digit_props (n mod 16) Hm) as [H1 [H2 H3]].
+    destruct (N.eqb_spec (n / 16) 0) as [E|E].
+    + exists [hex_digit (n mod 16)]. split; [reflexivity|].
+      assert (n = n mod 16) as Hnn by (rewrite E in Hdm; rewrite N.mul_0_r, N.add_0_l in Hdm; exact Hdm).
+      split; [repeat constructor; assumption|]. split.
+      * intro a. cbn [hex_value length]. rewrite H2, <- Hnn. change (N.of_nat 1) with 1. rewrite N.pow_1_r. reflexivity.
+      * intros k _. cbn [length]. lia.
+    + assert (n / 16 < 2 ^ N.of_nat f) as Hlt.
+      { rewrite Nat2N.inj_succ, N.pow_succ_r' in Hn. clear IH H1 H2 H3. set (q := n / 16) in *. set (m := n mod 16) in *.
+        set (X := 2 ^ N.of_nat f) in *. clearbody q m X. lia. }
+      destruct (IH (n / 16) (hex_digit (n mod 16) :: acc) Hlt) as [l' [El' [Hh [Hv Hlen]]]].
+      exists (l' ++ [hex_digit (n mod 16)]). split; [rewrite El', <- app_assoc; reflexivity|].
+      split; [apply Forall_app; split; [exact Hh | repeat constructor; assumption]|]. split.
+      * intro a. rewrite hex_value_app, Hv. cbn [hex_value]. rewrite H2. rewrite app_length. cbn [length].
+        rewrite Nat.add_1_r, Nat2N.inj_succ, N.pow_succ_r'.
+        set (P := 16 ^ N.of_nat (length l')). rewrite Hdm at 3. set (q := n / 16). set (m := n mod 16). ring.
+      * intros k Hk. rewrite app_length. cbn [length]. rewrite Nat.add_1_r.
+        destruct k as [|k].
+        { exfalso. change (N.of_nat 1) with 1 in Hk. rewrite N.pow_1_r in Hk. clear - Hk Hdm E Hm.
+          set (q := n / 16) in *. set (m := n mod 16) in *. clearbody q m. lia. }
+        apply le_n_S. apply Hlen. rewrite Nat2N.inj_succ, N.pow_succ_r' in Hk.
+        clear - Hk Hdm Hm. set (q := n / 16) in *. set (m := n mod 16) in *. set (X := 16 ^ N.of_nat (S k)) in *. clearbody q m X. lia.
+Qed.
+
+Lemma show_hex_spec n : n < 16777216 ->
+  hexs (show_hex n) /\ hex_value (show_hex n) 0 = n /\ (length (show_hex n) <= 6)%nat.
+Proof.
+  intro Hn. unfold show_hex. destruct (hex_fuel_spec (N.size_nat n) n [] (size_nat_gt n)) as [l [E [Hh [Hv Hl]]]].
+  rewrite E, app_nil_r. split; [exact Hh|]. split; [rewrite Hv; lia|]. apply (Hl 5%nat). exact Hn.
+Qed.
+
+(* ------------------------------------------------------------------ strings *)
+Lemma escape_char_nonempty c : escape_char c <> [].
+Proof.
+  unfold escape_char, escape_default. destruct (is_quote c); [discriminate|].
+  repeat match goal with |- context [if ?b then _ else _] => destruct b; try discriminate end.
+Qed.
+
+(* the chunk printed for one character never starts with a quote other than the character itself *)
+Lemma escape_char_head c q : is_quote q = true -> c <> q ->
+  match escape_char c with x :: _ => x <> q | [] => False end.
+Proof.
+  intros Hq Hne. unfold escape_char. destruct (is_quote c) eqn:Ec; [exact Hne|].
+  unfold escape_default.
+  assert (Hb : c_bslash <> q).
+  { intros <-. discriminate Hq. }
+  repeat match goal with |- context [if ?b then _ else _] => destruct b eqn:?; try exact Hb end.
+  - exact Hne.
+Qed.
+
+Lemma lex_escape_t q r : lex_escape q (116 :: r) = (9, r). Proof. reflexivity. Qed.
+Lemma lex_escape_r q r : lex_escape q (114 :: r) = (13, r). Proof. reflexivity. Qed.
+Lemma lex_escape_n q r : lex_escape q (110 :: r) = (10, r). Proof. reflexivity. Qed.
+Lemma lex_escape_b q r : lex_escape q (c_bslash :: r) = (c_bslash, r). Proof. reflexivity. Qed.
+
+Lemma lex_escape_u q l rest : hexs l -> (length l <= 6)%nat ->
+  lex_escape q (c_u :: c_lbrace :: l ++ c_rbrace :: rest) =
+  ((if valid_scalar (hex_value l 0) then hex_value l 0 else 65533), rest).
+Proof.
+  intros Hh Hl.
+  change (lex_escape q (c_u :: c_lbrace :: l ++ c_rbrace :: rest)) with
+    (let '(v, r) := lex_u_digits 8 (l ++ c_rbrace :: rest) 0 O in ((if valid_scalar v then v else 65533), r)).
+  rewrite (lex_u_digits_spec l Hh rest 8 0 0); [reflexivity | lia | lia].
+Qed.
+
+Lemma valid_scalar_bound c : valid_scalar c = true -> c < 16777216.
+Proof.
+  unfold valid_scalar. intro H. apply orb_true_iff in H as [H|H].
+  - apply N.ltb_lt in H. lia.
+  - apply andb_true_iff in H as [_ H]. apply N.ltb_lt in H. lia.
+Qed.
+
+Lemma lex_content_S fuel q n s acc :
+  lex_content (S fuel) q n s acc =
+  if (n <=? count_prefix q s)%nat then Some (rev acc, skipn n s)
+  else match s with
+       | [] => None
+       | c :: t => if c =? c_bslash then let '(ch, r) := lex_escape q t in lex_content fuel q n r (ch :: acc)
+                   else lex_content fuel q n t (c :: acc)
+       end.
+Proof. reflexivity. Qed.
+
+(* one character of the value: its chunk is consumed and decodes to the character *)
+Lemma chunk_step c q n rest fuel acc : valid_scalar c = true ->
+  (n <=? count_prefix q (escape_char c ++ rest))%nat = false ->
+  lex_content (S fuel) q n (escape_char c ++ rest) acc = lex_content fuel q n rest (c :: acc).
+Proof.
+  intros Hv Hcp. rewrite lex_content_S, Hcp. unfold escape_char, escape_default.
+  destruct (is_quote c) eqn:Eq.
+  { cbn [app]. unfold is_quote in Eq. destruct (N.eqb_spec c c_bslash) as [->|]; [discriminate Eq | reflexivity]. }
+  destruct (N.eqb_spec c 9) as [->|]; [cbn [app]; rewrite N.eqb_refl, lex_escape_t; reflexivity|].
+  destruct (N.eqb_spec c 13) as [->|]; [cbn [app]; rewrite N.eqb_refl, lex_escape_r; reflexivity|].
+  destruct (N.eqb_spec c 10) as [->|]; [cbn [app]; rewrite N.eqb_refl, lex_escape_n; reflexivity|].
+  destruct (N.eqb_spec c c_bslash) as [->|Hb]; [cbn [app]; rewrite N.eqb_refl, lex_escape_b; reflexivity|].
+  destruct (N.eqb_spec c c_squote) as [->|]; [discriminate Eq|].
+  destruct (N.eqb_spec c c_dquote) as [->|]; [discriminate Eq|].
+  destruct (in_range c 32 126).
+  { cbn [app]. destruct (N.eqb_spec c c_bslash); [contradiction | reflexivity]. }
+  destruct (show_hex_spec c (valid_scalar_bound c Hv)) as [Hh [Hval Hlen]].
+  cbn [app]. rewrite N.eqb_refl. rewrite <- app_assoc. cbn [app].
+  rewrite (lex_escape_u q (show_hex c) rest Hh Hlen). rewrite Hval, Hv. reflexivity.
+Qed.
+
+Definition esc := escape_all_except_quotes.
+Lemma esc_app a b : esc (a ++ b) = esc a ++ esc b.
+Proof. unfold esc, escape_all_except_quotes. apply flat_map_app. Qed.
+Lemma esc_cons c t : esc (c :: t) = escape_char c ++ esc t.
+Proof. reflexivity. Qed.
+
+Lemma count_prefix_repeat q n r : count_prefix q (repeat q n ++ r) = (n + count_prefix q r)%nat.
+Proof. induction n as [|n IH]; [reflexivity|]. cbn [repeat app count_prefix]. rewrite N.eqb_refl, IH. reflexivity. Qed.
+Lemma skipn_repeat {A} (x : A) n r : skipn n (repeat x n ++ r) = r.
+Proof. induction n as [|n IH]; [reflexivity|]. exact IH. Qed.
+
+(* the content loop decodes the escaped value, provided no chunk boundary looks like the closing delimiter *)
+Lemma content_decodes q n : forall s acc fuel, forallb valid_scalar s = true -> (length s < fuel)%nat ->
+  (forall s1 s2, s = s1 ++ s2 -> s2 <> [] -> (count_prefix q (esc s2 ++ repeat q n) < n)%nat) ->
+  lex_content fuel q n (esc s ++ repeat q n) acc = Some (rev acc ++ s, []).
+Proof.
+  induction s as [|c t IH]; intros acc fuel Hv Hf Hsuf.
+  - destruct fuel; [cbn in Hf; lia|]. rewrite lex_content_S. cbn [esc escape_all_except_quotes flat_map app].
+    rewrite <- (app_nil_r (repeat q n)) at 1. rewrite count_prefix_repeat. cbn [count_prefix].
+    destruct (Nat.leb_spec n (n + 0)); [|lia]. rewrite <- (app_nil_r (repeat q n)) at 1. rewrite skipn_repeat, app_nil_r. reflexivity.
+  - destruct fuel; [cbn in Hf; lia|]. cbn [forallb] in Hv. apply andb_true_iff in Hv as [Hc Ht].
+    rewrite esc_cons, <- app_assoc. rewrite chunk_step; [|exact Hc|].
+    + rewrite IH; [cbn [rev]; rewrite <- app_assoc; reflexivity | exact Ht | cbn [length] in Hf; lia|].
+      intros s1 s2 E Hne. apply (Hsuf (c :: s1) s2); [rewrite E; reflexivity | exact Hne].
+    + apply Nat.leb_gt. rewrite app_assoc, <- esc_cons. apply (Hsuf [] (c :: t)); [reflexivity | discriminate].
+Qed.
+
+Lemma count_prefix_app q a b :
+  count_prefix q (a ++ b) = if forallb (N.eqb q) a then (length a + count_prefix q b)%nat else count_prefix q a.
+Proof.
+  induction a as [|c t IH]; [reflexivity|]. cbn [app count_prefix forallb length].
+  rewrite (N.eqb_sym q c). destruct (c =? q); [|reflexivity]. cbn [andb]. rewrite IH. destruct (forallb (N.eqb q) t); reflexivity.
+Qed.
+
+Lemma contains_false_forall q a : contains q a = false -> a <> [] -> forallb (N.eqb q) a = false /\ count_prefix q a = O.
+Proof.
+  destruct a as [|c t]; [contradiction|]. intros H _. cbn [contains existsb] in H. apply orb_false_iff in H as [Hc _].
+  cbn [forallb count_prefix]. rewrite Hc. rewrite (N.eqb_sym c q), Hc. split; reflexivity.
+Qed.
+
+Lemma contains_app q a b : contains q (a ++ b) = contains q a || contains q b.
+Proof. unfold contains. apply existsb_app. Qed.
+
+Lemma esc_nil s : esc s = [] -> s = [].
+Proof. destruct s as [|c t]; [reflexivity|]. rewrite esc_cons. intro H. apply app_eq_nil in H as [H _]. destruct (escape_char_nonempty c H). Qed.
+
+Lemma esc_length s : (length s <= length (esc s))%nat.
+Proof.
+  induction s as [|c t IH]; [reflexivity|]. rewrite esc_cons, app_length. cbn [length].
+  pose proof (escape_char_nonempty c). destruct (escape_char c); [contradiction|]. cbn [length]. lia.
+Qed.
+
+(* runs *)
+Lemma max_run_aux_ge q s cur best : (best <= max_run_aux q s cur best /\ cur + count_prefix q s <= max_run_aux q s cur best)%nat.
+Proof.
+  revert cur best; induction s as [|c t IH]; intros cur best; cbn [max_run_aux count_prefix].
+  - lia.
+  - destruct (c =? q).
+    + destruct (IH (S cur) best). lia.
+    + destruct (IH O (Nat.max cur best)). lia.
+Qed.
+Lemma max_run_suffix q a b : forall cur best, (count_prefix q b <= max_run_aux q (a ++ b) cur best)%nat.
+Proof.
+  induction a as [|c t IH]; intros cur best; cbn [app].
+  - destruct (max_run_aux_ge q b cur best). lia.
+  - cbn [max_run_aux]. destruct (c =? q); apply IH.
+Qed.
+Lemma next_odd_gt n : (n < next_odd n)%nat /\ Nat.even (next_odd n) = false.
+Proof.
+  unfold next_odd. split.
+  - pose proof (Nat.div2_odd (S n)). destruct (Nat.odd (S n)); cbn [Nat.b2n] in *; lia.
+  - rewrite Nat.add_1_r, Nat.even_succ, Nat.mul_comm, Nat.odd_mul, Nat.odd_2. reflexivity.
+Qed.
+
+Lemma ends_with_app q a b : b <> [] -> ends_with q (a ++ b) = ends_with q b.
+Proof.
+  intro Hb. unfold ends_with. rewrite rev_app_distr. destruct (rev b) eqn:E; [|reflexivity].
+  apply (f_equal (@rev N)) in E. rewrite rev_involutive in E. contradiction.
+Qed.
+Lemma forall_q_ends q b : b <> [] -> forallb (N.eqb q) b = true -> ends_with q b = true.
+Proof.
+  intros Hb H. unfold ends_with. destruct (rev b) as [|x r] eqn:E.
+  - apply (f_equal (@rev N)) in E. rewrite rev_involutive in E. contradiction.
+  - rewrite forallb_forall in H. assert (In x b) as Hin by (apply in_rev; rewrite E; left; reflexivity).
+    specialize (H x Hin). rewrite N.eqb_sym. exact H.
+Qed.
+
+(* one quoting style: delimiter of n copies of q around e = esc s *)
+Lemma lex_quoted_style q n s : is_quote q = true -> forallb valid_scalar s = true ->
+  Nat.even n = false -> starts_with q (esc s) = false ->
+  (forall s1 s2, s = s1 ++ s2 -> s2 <> [] -> (count_prefix q (esc s2 ++ repeat q n) < n)%nat) ->
+  s <> [] ->
+  lex_quoted q (repeat q n ++ esc s ++ repeat q n) = Some (s, []).
+Proof.
+  intros Hq Hv Hodd Hst Hsuf Hne. unfold lex_quoted.
+  assert (Hcp : count_prefix q (repeat q n ++ esc s ++ repeat q n) = n).
+  { rewrite count_prefix_repeat. destruct (esc s) as [|x r] eqn:E; [apply esc_nil in E; contradiction|].
+    cbn [app count_prefix]. cbn [starts_with] in Hst. rewrite Hst. lia. }
+  rewrite Hcp. destruct n as [|n]; [discriminate Hodd|]. cbn [Nat.eqb]. rewrite Hodd.
+  rewrite skipn_repeat. rewrite content_decodes; [reflexivity | exact Hv | | exact Hsuf].
+  rewrite !app_length, repeat_length. pose proof (esc_length s). lia.
+Qed.
+
+Theorem string_roundtrip s : forallb valid_scalar s = true -> quote_edge (esc s) = false ->
+  lex_string (fmt_string s) = Some (s, []).
+Proof.
+  intros Hv He. unfold fmt_string, quote_string. fold (esc s).
+  destruct (contains c_dquote (esc s)) eqn:Cd; cbn [negb].
+  2:{ (* no double quote in the escaped text: one double quote as delimiter *)
+    unfold lex_string. destruct s as [|c t].
+    - reflexivity.
+    - change (c_dquote :: esc (c :: t) ++ [c_dquote]) with (repeat c_dquote 1 ++ esc (c :: t) ++ repeat c_dquote 1).
+      rewrite lex_quoted_style; try reflexivity; try assumption; try discriminate.
+      + destruct (esc (c :: t)) as [|x r]; [reflexivity|]. cbn [contains existsb] in Cd. apply orb_false_iff in Cd as [Cd _].
+        cbn [starts_with]. rewrite N.eqb_sym. exact Cd.
+      + intros s1 s2 E Hne. rewrite E, esc_app, contains_app in Cd. apply orb_false_iff in Cd as [_ Cd].
+        assert (esc s2 <> []) as Hn2 by (intro X; apply esc_nil in X; contradiction).
+        destruct (contains_false_forall _ _ Cd Hn2) as [Hf Hc]. rewrite count_prefix_app, Hf, Hc. lia. }
+  destruct (contains c_squote (esc s)) eqn:Cs; cbn [negb].
+  2:{ (* double quotes but no single quote: one single quote as delimiter *)
+    unfold lex_string.
+    assert (s <> []) as Hne by (intros ->; discriminate Cd).
+    assert (lex_quoted c_dquote (c_squote :: esc s ++ [c_squote]) = None) as -> by reflexivity.
+    change (c_squote :: esc s ++ [c_squote]) with (repeat c_squote 1 ++ esc s ++ repeat c_squote 1).
+    apply lex_quoted_style; try reflexivity; try assumption.
+    + destruct (esc s) as [|x r]; [reflexivity|]. cbn [contains existsb] in Cs. apply orb_false_iff in Cs as [Cs _].
+      cbn [starts_with]. rewrite N.eqb_sym. exact Cs.
+    + intros s1 s2 E Hne2. rewrite E, esc_app, contains_app in Cs. apply orb_false_iff in Cs as [_ Cs].
+      assert (esc s2 <> []) as Hn2 by (intro X; apply esc_nil in X; contradiction).
+      destruct (contains_false_forall _ _ Cs Hn2) as [Hf Hc]. rewrite count_prefix_app, Hf, Hc. lia. }
+  (* both quotes occur *)
+  unfold quote_edge in He. rewrite Cd, Cs in He. cbn [andb] in He.
+  set (q := if starts_with c_dquote (esc s) || ends_with c_dquote (esc s) then c_squote else c_dquote) in *.
+  apply orb_false_iff in He as [Hst Hen].
+  assert (Hq : is_quote q = true) by (unfold q; destruct (_ || _); reflexivity).
+  assert (s <> []) as Hne by (intros ->; discriminate Cd).
+  destruct (next_odd_gt (max_run q (esc s))) as [Hgt Hodd].
+  set (n := next_odd (max_run q (esc s))) in *.
+  assert (Hsuf : forall s1 s2, s = s1 ++ s2 -> s2 <> [] -> (count_prefix q (esc s2 ++ repeat q n) < n)%nat).
+  { intros s1 s2 E Hne2. assert (esc s2 <> []) as Hn2 by (intro X; apply esc_nil in X; contradiction).
+    rewrite count_prefix_app. destruct (forallb (N.eqb q) (esc s2)) eqn:Hf.
+    - exfalso. rewrite E, esc_app, (ends_with_app q _ _ Hn2), (forall_q_ends q _ Hn2 Hf) in Hen. discriminate.
+    - pose proof (max_run_suffix q (esc s1) (esc s2) O O) as Hm. rewrite <- esc_app, <- E in Hm. unfold max_run in Hgt. lia. }
+  pose proof (lex_quoted_style q n s Hq Hv Hodd Hst Hsuf Hne) as HL.
+  unfold lex_string. unfold q in *. destruct (starts_with c_dquote (esc s) || ends_with c_dquote (esc s)).
+  - (* single-quote delimiter: the double-quote attempt sees no opening quote *)
+    assert (lex_quoted c_dquote (repeat c_squote n ++ esc s ++ repeat c_squote n) = None) as ->.
+    { unfold lex_quoted. destruct n as [|n']; [discriminate Hodd|]. reflexivity. }
+    exact HL.
+  - rewrite HL. reflexivity.
+Qed.
+
+(* the refutation witness: the two-character value  single-quote double-quote *)
+Lemma string_roundtrip_refuted_witness :
+  forallb valid_scalar [c_squote; c_dquote] = true /\ lex_string (fmt_string [c_squote; c_dquote]) <> Some ([c_squote; c_dquote], []).
+Proof. split; [reflexivity|]. vm_compute. discriminate. Qed.
+
+(* ------------------------------------------------------------------ floats *)
+Lemma zeros_digits k : forallb is_digit (zeros k) = true.
+Proof. induction k as [|k IH]; [reflexivity|]. cbn [zeros repeat forallb]. exact IH. Qed.
+Lemma zeros_val k a : digits_val (zeros k) a = a * 10 ^ N.of_nat k.
+Proof.
+  revert a; induction k as [|k IH]; intro a.
+  - cbn [zeros repeat digits_val]. change (N.of_nat 0) with 0. rewrite N.pow_0_r. lia.
+  - cbn [zeros repeat digits_val]. change (is_digit c_zero) with true. cbv iota. fold (zeros k). rewrite IH.
+    rewrite Nat2N.inj_succ, N.pow_succ_r'. unfold c_zero. set (P := 10 ^ N.of_nat k). clearbody P. lia.
+Qed.
+Lemma count_digits_all l : forallb is_digit l = true -> count_digits l = length l.
+Proof.
+  unfold count_digits. induction l as [|c t IH]; [reflexivity|]. cbn [forallb filter]. intro H. apply andb_true_iff in H as [-> Ht].
+  cbn [length]. rewrite (IH Ht). reflexivity.
+Qed.
+Lemma forallb_firstn {A} (p : A -> bool) n l : forallb p l = true -> forallb p (firstn n l) = true.
+Proof. revert l; induction n as [|n IH]; intros [|c t]; cbn [firstn forallb]; auto. intro H. apply andb_true_iff in H as [-> Ht]. apply IH; exact Ht. Qed.
+Lemma forallb_skipn {A} (p : A -> bool) n l : forallb p l = true -> forallb p (skipn n l) = true.
+Proof. revert l; induction n as [|n IH]; intros [|c t]; cbn [skipn forallb]; auto. intro H. apply andb_true_iff in H as [_ Ht]. apply IH; exact Ht. Qed.
+
+Lemma norm_dec_id f m e : m <> 0 -> m mod 10 <> 0 -> norm_dec (S f) m e = FFin m e.
+Proof.
+  intros H0 H1. cbn [norm_dec]. destruct (N.eqb_spec m 0); [contradiction|]. destruct (N.eqb_spec (m mod 10) 0); [contradiction | reflexivity].
+Qed.
+Lemma norm_dec_strip : forall k f m e, m <> 0 -> m mod 10 <> 0 -> (k < f)%nat ->
+  norm_dec f (m * 10 ^ N.of_nat k) e = FFin m (e + Z.of_nat k)%Z.
+Proof.
+  induction k as [|k IH]; intros f m e H0 H1 Hf.
+  - destruct f; [lia|]. change (N.of_nat 0) with 0. rewrite N.pow_0_r, N.mul_1_r, Z.add_0_r. apply norm_dec_id; assumption.
+  - destruct f; [lia|]. cbn [norm_dec]. rewrite Nat2N.inj_succ, N.pow_succ_r'.
+    set (P := 10 ^ N.of_nat k). assert (P <> 0) as HP by (apply N.pow_nonzero; discriminate).
+    assert (m * (10 * P) = (m * P) * 10) as -> by ring.
+    destruct (N.eqb_spec (m * P * 10) 0) as [E|_]; [exfalso; apply N.eq_mul_0 in E as [E|E]; [apply N.eq_mul_0 in E as [E|E]; contradiction | discriminate]|].
+    rewrite N.mod_mul by discriminate. rewrite N.eqb_refl. rewrite N.div_mul by discriminate.
+    unfold P. rewrite IH; [|assumption|assumption|lia]. f_equal. lia.
+Qed.
+
+Lemma show_N_nonzero_head m : m <> 0 -> exists c t, show_N m = c :: t /\ is_digit c = true /\ (c =? c_zero) = false /\ forallb is_digit t = true.
+Proof.
+  intro Hm. destruct (show_N_spec m) as [_ Hd Hh]. destruct (show_N m) as [|c t]; [contradiction|].
+  exists c, t. cbn [forallb] in Hd. apply andb_true_iff in Hd as [Hc Ht]. repeat split; try assumption.
+  destruct (N.eqb_spec m 0); [contradiction|]. apply N.eqb_neq. exact Hh.
+Qed.
+
+Lemma dot_not_digit_or_us : is_digit_or_us c_dot = false. Proof. reflexivity. Qed.
+
+Theorem float_roundtrip m e : flt_wf (FFin m e) = true -> float_prints_as_int (FFin m e) = false ->
+  lex_number (fmt_float (FFin m e)) = Some (NFloat (FFin m e), []).
+Proof.
+  intros Hwf Hpi. cbn [flt_wf] in Hwf. cbn [float_prints_as_int] in Hpi.
+  pose proof (d_val _ _ (show_N_spec m) 0) as Hval. rewrite N.mul_0_l, N.add_0_l in Hval.
+  pose proof (d_dig _ _ (show_N_spec m)) as Hdig.
+  destruct e as [|p|p]; cbn [fmt_float].
+  - (* no exponent: an integer too large for i64 *)
+    cbn [Z.leb Z.compare Z.to_N andb] in Hpi. rewrite N.pow_0_r, N.mul_1_r in Hpi.
+    assert (m <> 0) as Hm0 by (intros ->; discriminate Hpi).
+    destruct (N.eqb_spec m 0); [contradiction|]. apply negb_true_iff, N.eqb_neq in Hwf.
+    unfold lex_number. rewrite lex_int_part_digits. cbn [lex_frac lex_exp]. rewrite Hval, Hpi.
+    rewrite norm_dec_id by assumption. reflexivity.
+  - (* trailing zeros *)
+    destruct (N.eqb_spec m 0) as [->|Hm0]; [discriminate Hwf|]. apply negb_true_iff, N.eqb_neq in Hwf.
+    cbn [Z.leb Z.compare Z.to_N andb] in Hpi.
+    set (k := Pos.to_nat p). assert (Hk : N.of_nat k = N.pos p) by (unfold k; apply positive_nat_N).
+    destruct (show_N_nonzero_head m Hm0) as [c [t [E [Hc [Hcz Ht]]]]].
+    unfold lex_number, lex_int_part. rewrite E. cbn [app]. rewrite Hc, Hcz. cbn [negb andb].
+    assert (Hall : forallb is_digit (t ++ zeros k) = true) by (rewrite forallb_app, Ht, zeros_digits; reflexivity).
+    rewrite (take_while_all _ _ (digit_or_us _ Hall)). cbn [lex_frac lex_exp].
+    assert (Hiv : digits_val (c :: t ++ zeros k) 0 = m * 10 ^ N.pos p).
+    { change (c :: t ++ zeros k) with ((c :: t) ++ zeros k). rewrite <- E, digits_val_app, Hval, zeros_val, Hk. reflexivity. }
+    rewrite Hiv, Hpi.
+    assert (Hcd : count_digits (c :: t ++ zeros k) = length (c :: t ++ zeros k)).
+    { apply count_digits_all. cbn [forallb]. rewrite Hc, Hall. reflexivity. }
+    rewrite Hcd, <- Hk. rewrite norm_dec_strip; [ | assumption | assumption | ].
+    + rewrite Z.add_0_l. unfold k. rewrite positive_nat_Z. reflexivity.
+    + cbn [length]. rewrite app_length. unfold zeros. rewrite repeat_length. lia.
+  - (* a fraction *)
+    destruct (N.eqb_spec m 0) as [->|Hm0]; [discriminate Hwf|]. apply negb_true_iff, N.eqb_neq in Hwf.
+    set (k := Pos.to_nat p). assert (Hkpos : (0 < k)%nat) by (unfold k; apply Pos2Nat.is_pos).
+    assert (HkZ : (- Z.of_nat k)%Z = Z.neg p) by (unfold k; rewrite positive_nat_Z; reflexivity).
+    destruct (show_N_nonzero_head m Hm0) as [c [t [E [Hc [Hcz Ht]]]]].
+    set (ds := show_N m) in *. set (n := length ds).
+    destruct (Nat.ltb_spec k n) as [Hkn|Hkn].
+    + (* digits on both sides of the point *)
+      assert (Hsplit : ds = firstn (n - k) ds ++ skipn (n - k) ds) by (symmetry; apply firstn_skipn).
+      assert (Hip : firstn (n - k) ds = c :: firstn (n - k - 1) t).
+      { rewrite E. destruct (n - k)%nat as [|j] eqn:Ej; [lia|]. replace (S j - 1)%nat with j by lia. reflexivity. }
+      assert (Hfp : exists d fp', skipn (n - k) ds = d :: fp' /\ is_digit d = true /\ forallb is_digit fp' = true).
+      { pose proof (forallb_skipn is_digit (n - k) ds Hdig) as Hs. pose proof (skipn_length (n - k) ds) as Hl. fold n in Hl.
+        destruct (skipn (n - k) ds) as [|d fp']; [cbn [length] in Hl; lia|].
+        cbn [forallb] in Hs. apply andb_true_iff in Hs as [Hd Hf]. exists d, fp'. auto. }
+      destruct Hfp as [d [fp' [Efp [Hd Hfp']]]].
+      unfold lex_number, lex_int_part. rewrite Hip, Efp. cbn [app]. rewrite Hc, Hcz. cbn [negb andb].
+      rewrite (take_while_stop is_digit_or_us (firstn (n - k - 1) t) (c_dot :: d :: fp'));
+        [ | apply digit_or_us, forallb_firstn; exact Ht | exact dot_not_digit_or_us].
+      cbn [lex_frac]. rewrite N.eqb_refl, Hd. cbn [andb]. rewrite (take_while_all _ _ (digit_or_us _ Hfp')). cbn [lex_exp].
+      assert (Hm : digits_val ((c :: firstn (n - k - 1) t) ++ d :: fp') 0 = m).
+      { rewrite <- Hip, <- Efp, <- Hsplit. exact Hval. }
+      rewrite Hm.
+      assert (Hcnt : count_digits (d :: fp') = k).
+      { rewrite count_digits_all by (cbn [forallb]; rewrite Hd, Hfp'; reflexivity). rewrite <- Efp, skipn_length. fold n. lia. }
+      rewrite Hcnt, HkZ. rewrite norm_dec_id by assumption. reflexivity.
+    + (* 0.000ddd *)
+      unfold lex_number, lex_int_part. cbn [app]. change (is_digit c_zero) with true. rewrite N.eqb_refl. cbn [negb andb].
+      assert (Hall : forallb is_digit (zeros (k - n) ++ ds) = true) by (rewrite forallb_app, zeros_digits; exact Hdig).
+      destruct (zeros (k - n) ++ ds) as [|d fp'] eqn:Efp.
+      { apply app_eq_nil in Efp as [_ X]. rewrite E in X. discriminate X. }
+      cbn [forallb] in Hall. apply andb_true_iff in Hall as [Hd Hfp'].
+      cbn [lex_frac]. rewrite N.eqb_refl, Hd. cbn [andb]. rewrite (take_while_all _ _ (digit_or_us _ Hfp')). cbn [lex_exp].
+      assert (Hm : digits_val ([c_zero] ++ d :: fp') 0 = m).
+      { rewrite <- Efp. cbn [app digits_val]. change (is_digit c_zero) with true. cbv iota.
+        rewrite digits_val_app, zeros_val. change (0 * 10 + (c_zero - 48)) with 0. rewrite N.mul_0_l. exact Hval. }
+      rewrite Hm.
+      assert (Hcnt : count_digits (d :: fp') = k).
+      { rewrite count_digits_all by (cbn [forallb]; rewrite Hd, Hfp'; reflexivity). rewrite <- Efp, app_length. unfold zeros. rewrite repeat_length. fold n. lia. }
+      rewrite Hcnt, HkZ. rewrite norm_dec_id by assumption. reflexivity.
+Qed.
+
+Lemma float_roundtrip_refuted_witness :
+  flt_wf (FFin 1 0) = true /\ lex_number (fmt_float (FFin 1 0)) = Some (NInt 1, []) /\
+  lex_number (fmt_float FInf) = None.
+Proof. repeat split; reflexivity. Qed.
+
+(* ------------------------------------------------------------------ raw strings *)
+Theorem raw_roundtrip s : forallb raw_ok s = true -> lex_raw (fmt_raw s) = Some (s, []).
+Proof.
+  intro H. unfold fmt_raw, quote_string.
+  assert (contains c_dquote s = false) as ->.
+  { clear - H. induction s as [|c t IH]; [reflexivity|]. cbn [forallb contains existsb] in *. apply andb_true_iff in H as [Hc Ht].
+    unfold raw_ok, is_quote in Hc. rewrite !andb_true_iff, negb_true_iff, orb_false_iff in Hc. destruct Hc as [[[Hd _] _] _].
+    rewrite N.eqb_sym, Hd. apply IH; exact Ht. }
+  cbn [negb]. unfold lex_raw. change ((114 =? 114) && is_quote c_dquote) with true. cbv iota.
+  rewrite (take_while_stop raw_ok s [c_dquote] H eq_refl). reflexivity.
 Qed.
